@@ -6,6 +6,7 @@ import (
 	"bytes"
 	"fmt"
 	"math/big"
+	"strings"
 
 	secp256k1 "gitlab.com/yawning/secp256k1-voi"
 	"gitlab.com/yawning/secp256k1-voi/secec"
@@ -211,6 +212,8 @@ type c17Op struct {
 	// maxSecrets, when set, bounds the number of secrets the source-level monitor runs the
 	// operation for (operations that take tens of milliseconds per call)
 	maxSecrets int
+	// derived: "the same operation on K0 first" (built mechanically at the end of c17Ops)
+	derived bool
 }
 
 var (
@@ -540,6 +543,29 @@ func c17Ops() []c17Op {
 			return func() { _, _ = hk.SampleRandomScalar(&fixedReader{data: stream}) }
 		}, vars: 1})
 	}
+	// process state, mechanically for every operation: the SAME operation has just been run on
+	// the fixed secret K0 = 0x55..55, which is itself one of the secrets.  The trace of "K0, then
+	// s" must not depend on s; a memo of the last decomposition / inverse / derived key that is
+	// consulted with a (constant-time or not) comparison takes another path exactly when s = K0.
+	k0 := c17Secret{mustHexBig("5555555555555555555555555555555555555555555555555555555555555555"), "pattern-55"}
+	base := len(ops)
+	for i := 0; i < base; i++ {
+		o := ops[i]
+		if strings.Contains(o.name, "after-importing-K0") {
+			continue
+		}
+		d := o
+		d.name = o.name + "/right-after-the-same-operation-on-K0"
+		d.derived = true
+		if d.cost == 1 {
+			d.cost = 2
+		}
+		d.prep = func(s c17Secret, v int) func() {
+			f0, f := o.prep(k0, v), o.prep(s, v)
+			return func() { f0(); f() }
+		}
+		ops = append(ops, d)
+	}
 	return ops
 }
 
@@ -617,6 +643,22 @@ func CTProbe(seed int64, tier string, only map[int]bool) []CTPlanEntry {
 					continue
 				}
 				take := false
+				if o.derived {
+					// "right after the same operation on K0": stepped in the thorough tier only, for K0
+					// itself and two other secrets (the source-level monitor runs all secrets in both tiers)
+					if tier == "thorough" && picked < 3 && (s.class == "pattern-55" || s.class == "n-1" || s.class == "pattern-aa") {
+						picked++
+						e.Secrets = append(e.Secrets, si)
+						e.Classes = append(e.Classes, s.class)
+						e.Values = append(e.Values, fmt.Sprintf("%x", s.v))
+						sh := ""
+						if o.shape != nil {
+							sh = o.shape(s, v)
+						}
+						e.Shapes = append(e.Shapes, sh)
+					}
+					continue
+				}
 				switch o.cost {
 				case 0:
 					take = true
